@@ -84,6 +84,18 @@ func (s Site) ID() string {
 	return fmt.Sprintf("%s|%s|%s|%s|%d", s.Kind, s.File, s.Func, s.Expr, s.Ord)
 }
 
+// Key is the FNV-1a 64-bit hash of "<identity>#<class>": the Lean kernel compares these numbers
+// (comparing the strings themselves in the kernel costs ~0.1 s per pair). BMV/SchedExpect.lean
+// recomputes the hash of every hand-written row when it is compiled.
+func (s Site) Key() uint64 {
+	h := uint64(0xcbf29ce484222325)
+	for _, b := range []byte(s.ID() + "#" + s.Class) {
+		h ^= uint64(b)
+		h *= 0x100000001b3
+	}
+	return h
+}
+
 func die(format string, a ...interface{}) {
 	fmt.Fprintf(os.Stderr, "c07: "+format+"\n", a...)
 	os.Exit(2)
@@ -716,7 +728,16 @@ func main() {
 	defer out.Flush()
 	switch os.Args[1] {
 	case "json":
-		b, _ := json.MarshalIndent(map[string]interface{}{"sites": sites, "problems": problems}, "", " ")
+		type js struct {
+			Site
+			ID  string `json:"id"`
+			Key string `json:"key"`
+		}
+		var l []js
+		for _, s := range sites {
+			l = append(l, js{s, s.ID(), fmt.Sprintf("0x%016x", s.Key())})
+		}
+		b, _ := json.MarshalIndent(map[string]interface{}{"sites": l, "problems": problems}, "", " ")
 		out.Line("%s", string(b))
 	case "extract":
 		out.Line("/-")
@@ -753,7 +774,7 @@ func main() {
 					fl = append(fl, leanStr(f))
 				}
 			}
-			out.Line("  ⟨%s, [%s]⟩%s  -- line %d", leanStr(s.ID()), strings.Join(fl, ", "), sep, s.Line)
+			out.Line("  ⟨0x%016x, %s, [%s]⟩%s  -- line %d", s.Key(), leanStr(s.ID()), strings.Join(fl, ", "), sep, s.Line)
 		}
 		out.Line("]")
 		out.Line("")
